@@ -14,6 +14,7 @@ import (
 	"strings"
 
 	"github.com/imroc/req/v3/internal/header"
+	"golang.org/x/net/http/httpguts"
 )
 
 var (
@@ -98,12 +99,17 @@ func handleDigestAuthFunc(username, password string) ResponseMiddleware {
 // isDigestChallenge reports whether resp is a 401 carrying a Digest challenge, i.e. the
 // response the digest middleware replaces by the answer to the authorized request.
 func isDigestChallenge(resp *http.Response) bool {
-	return resp.StatusCode == http.StatusUnauthorized &&
-		strings.HasPrefix(strings.Trim(resp.Header.Get(header.WwwAuthenticate), " \n\r\t"), "Digest ")
+	if resp.StatusCode != http.StatusUnauthorized {
+		return false
+	}
+	_, err := parseChallenge(strings.Join(resp.Header.Values(header.WwwAuthenticate), ", "))
+	// a Digest challenge was read, whether or not it can be answered
+	return err == nil || !errors.Is(err, errDigestBadChallenge)
 }
 
 func createDigestAuth(resp *http.Response, username, password string) (auth string, err error) {
-	chal := resp.Header.Get(header.WwwAuthenticate)
+	// several field lines are one comma-separated list (RFC 7230 section 3.2.2)
+	chal := strings.Join(resp.Header.Values(header.WwwAuthenticate), ", ")
 	if chal == "" {
 		return "", errDigestBadChallenge
 	}
@@ -147,48 +153,197 @@ type challenge struct {
 	userhash  string
 }
 
+// parseChallenge reads a WWW-Authenticate field value (RFC 7235 section 4.1:
+// a list of challenges, each with a list of parameters) and returns the first
+// Digest challenge in it that can be answered (RFC 7616 section 3.7). If there
+// is none, the error says why the first Digest challenge cannot be answered.
 func parseChallenge(input string) (*challenge, error) {
-	const ws = " \n\r\t"
-	const qs = `"`
-	s := strings.Trim(input, ws)
-	if !strings.HasPrefix(s, "Digest ") {
-		return nil, errDigestBadChallenge
-	}
-	s = strings.Trim(s[7:], ws)
-	sl := strings.Split(s, ",")
-	c := &challenge{}
-	var r []string
-	for i := range sl {
-		r = strings.SplitN(strings.TrimSpace(sl[i]), "=", 2)
-		if len(r) != 2 {
+	var list []*challenge
+	var c *challenge // the Digest challenge being read; nil inside a challenge of another scheme
+	var seen map[string]bool
+	for _, e := range splitList(input) {
+		e = strings.Trim(e, " \t")
+		if e == "" {
+			continue // empty list element
+		}
+		name, rest := cutToken(e)
+		if name == "" {
 			return nil, errDigestBadChallenge
 		}
-		switch r[0] {
+		if after := strings.TrimLeft(rest, " \t"); !strings.HasPrefix(after, "=") {
+			// a new challenge: auth-scheme [ 1*SP ( token68 / auth-param ) ]
+			if after != "" && after == rest {
+				return nil, errDigestBadChallenge
+			}
+			c, seen = nil, map[string]bool{}
+			if strings.EqualFold(name, "Digest") {
+				c = &challenge{}
+				list = append(list, c)
+			}
+			if after == "" {
+				continue
+			}
+			if isToken68(after) {
+				if c != nil {
+					return nil, errDigestBadChallenge
+				}
+				continue
+			}
+			name, rest = cutToken(after)
+		}
+		value, ok := paramValue(rest)
+		name = strings.ToLower(name) // parameter names are case-insensitive
+		if !ok || seen == nil || seen[name] {
+			// not an auth-param, outside any challenge, or twice in one challenge
+			return nil, errDigestBadChallenge
+		}
+		seen[name] = true
+		if c == nil {
+			continue
+		}
+		switch name {
 		case "realm":
-			c.realm = strings.Trim(r[1], qs)
+			c.realm = value
 		case "domain":
-			c.domain = strings.Trim(r[1], qs)
+			c.domain = value
 		case "nonce":
-			c.nonce = strings.Trim(r[1], qs)
+			c.nonce = value
 		case "opaque":
-			c.opaque = strings.Trim(r[1], qs)
+			c.opaque = value
 		case "stale":
-			c.stale = strings.Trim(r[1], qs)
+			c.stale = value
 		case "algorithm":
-			c.algorithm = strings.Trim(r[1], qs)
+			c.algorithm = value
 		case "qop":
-			c.qop = strings.Trim(r[1], qs)
+			c.qop = value
 		case "charset":
-			if strings.ToUpper(strings.Trim(r[1], qs)) != "UTF-8" {
+			if strings.ToUpper(value) != "UTF-8" {
 				return nil, errDigestCharset
 			}
 		case "userhash":
-			c.userhash = strings.Trim(r[1], qs)
+			c.userhash = value
 		default:
-			return nil, errDigestBadChallenge
+			// RFC 7616 section 3.3: unrecognized parameters are ignored
 		}
 	}
-	return c, nil
+	err := errDigestBadChallenge // no Digest challenge at all
+	for i, c := range list {
+		_, e := selectQop(c.algorithm, c.qop)
+		if e == nil {
+			return c, nil
+		}
+		if i == 0 {
+			err = e
+		}
+	}
+	return nil, err
+}
+
+// splitList splits a list-valued field at the commas that are not inside a
+// quoted-string (RFC 7230 sections 3.2.6 and 7).
+func splitList(s string) []string {
+	var list []string
+	quoted, escaped, start := false, false, 0
+	for i := 0; i < len(s); i++ {
+		switch {
+		case escaped:
+			escaped = false
+		case quoted && s[i] == '\\':
+			escaped = true
+		case s[i] == '"':
+			quoted = !quoted
+		case s[i] == ',' && !quoted:
+			list = append(list, s[start:i])
+			start = i + 1
+		}
+	}
+	return append(list, s[start:])
+}
+
+// cutToken splits s after its longest prefix of token characters.
+func cutToken(s string) (token, rest string) {
+	i := 0
+	for i < len(s) && httpguts.IsTokenRune(rune(s[i])) {
+		i++
+	}
+	return s[:i], s[i:]
+}
+
+// isToken68 reports whether s is a token68 (RFC 7235 section 2.1).
+func isToken68(s string) bool {
+	t := strings.TrimRight(s, "=")
+	for i := 0; i < len(t); i++ {
+		c := t[i]
+		if !('a' <= c && c <= 'z' || 'A' <= c && c <= 'Z' || '0' <= c && c <= '9' || strings.IndexByte("-._~+/", c) >= 0) {
+			return false
+		}
+	}
+	return t != ""
+}
+
+// paramValue reads what follows the name of an auth-param:
+// BWS "=" BWS ( token / quoted-string ), up to the end of s.
+func paramValue(s string) (value string, ok bool) {
+	s = strings.TrimLeft(s, " \t")
+	if !strings.HasPrefix(s, "=") {
+		return "", false
+	}
+	s = strings.TrimLeft(s[1:], " \t")
+	if !strings.HasPrefix(s, `"`) {
+		token, rest := cutToken(s)
+		return token, token != "" && rest == ""
+	}
+	var b strings.Builder
+	for i := 1; i < len(s); i++ {
+		switch s[i] {
+		case '"':
+			return b.String(), i == len(s)-1
+		case '\\': // quoted-pair
+			i++
+			if i == len(s) {
+				return "", false
+			}
+		}
+		b.WriteByte(s[i])
+	}
+	return "", false // no closing quote
+}
+
+// quote writes s as a quoted-string (RFC 7230 section 3.2.6).
+func quote(s string) string {
+	var b strings.Builder
+	b.WriteByte('"')
+	for i := 0; i < len(s); i++ {
+		if s[i] == '"' || s[i] == '\\' {
+			b.WriteByte('\\')
+		}
+		b.WriteByte(s[i])
+	}
+	b.WriteByte('"')
+	return b.String()
+}
+
+// selectQop checks that a challenge with this algorithm and these qop options
+// can be answered and returns the qop value to use ("" when none is offered).
+func selectQop(algorithm, options string) (qop string, err error) {
+	if _, ok := hashFuncs[algorithm]; !ok {
+		return "", errDigestAlgNotSupported
+	}
+	// Currently only supporting auth quality of protection. TODO: add auth-int support
+	for _, o := range strings.Split(options, ",") {
+		if strings.Trim(o, " \t") == "auth" {
+			qop = "auth"
+		}
+	}
+	if options != "" && qop == "" {
+		return "", errDigestQopNotSupported
+	}
+	if qop == "" && strings.HasSuffix(algorithm, "-sess") {
+		// A1 of a -sess algorithm contains the cnonce, which is only
+		// transmitted together with qop: the server could not verify.
+		return "", errDigestQopNotSupported
+	}
+	return qop, nil
 }
 
 type credentials struct {
@@ -208,19 +363,11 @@ type credentials struct {
 }
 
 func (c *credentials) authorize() (string, error) {
-	if _, ok := hashFuncs[c.algorithm]; !ok {
-		return "", errDigestAlgNotSupported
-	}
-
-	if err := c.validateQop(); err != nil {
+	qop, err := selectQop(c.algorithm, c.messageQop)
+	if err != nil {
 		return "", err
 	}
-
-	if c.sessionAlg && c.messageQop == "" {
-		// A1 of a -sess algorithm contains the cnonce, which is only
-		// transmitted together with qop: the server could not verify.
-		return "", errDigestQopNotSupported
-	}
+	c.messageQop = qop
 
 	resp, err := c.resp()
 	if err != nil {
@@ -233,45 +380,25 @@ func (c *credentials) authorize() (string, error) {
 		c.username = c.h(fmt.Sprintf("%s:%s", c.username, c.realm))
 		sl = append(sl, fmt.Sprintf(`userhash=%s`, c.userhash))
 	}
-	sl = append(sl, fmt.Sprintf(`username="%s"`, c.username))
-	sl = append(sl, fmt.Sprintf(`realm="%s"`, c.realm))
-	sl = append(sl, fmt.Sprintf(`nonce="%s"`, c.nonce))
-	sl = append(sl, fmt.Sprintf(`uri="%s"`, c.digestURI))
-	sl = append(sl, fmt.Sprintf(`response="%s"`, resp))
+	sl = append(sl, "username="+quote(c.username))
+	sl = append(sl, "realm="+quote(c.realm))
+	sl = append(sl, "nonce="+quote(c.nonce))
+	sl = append(sl, "uri="+quote(c.digestURI))
+	sl = append(sl, "response="+quote(resp))
 	if c.algorithm != "" {
 		// an empty value is not a token: leave the parameter out (the default is MD5)
 		sl = append(sl, fmt.Sprintf(`algorithm=%s`, c.algorithm))
 	}
 	if c.opaque != "" {
-		sl = append(sl, fmt.Sprintf(`opaque="%s"`, c.opaque))
+		sl = append(sl, "opaque="+quote(c.opaque))
 	}
 	if c.messageQop != "" {
 		sl = append(sl, fmt.Sprintf("qop=%s", c.messageQop))
 		sl = append(sl, fmt.Sprintf("nc=%08x", c.nc))
-		sl = append(sl, fmt.Sprintf(`cnonce="%s"`, c.cNonce))
+		sl = append(sl, "cnonce="+quote(c.cNonce))
 	}
 
 	return fmt.Sprintf("Digest %s", strings.Join(sl, ", ")), nil
-}
-
-func (c *credentials) validateQop() error {
-	// Currently only supporting auth quality of protection. TODO: add auth-int support
-	if c.messageQop == "" {
-		return nil
-	}
-	possibleQops := strings.Split(c.messageQop, ", ")
-	var authSupport bool
-	for _, qop := range possibleQops {
-		if qop == "auth" {
-			authSupport = true
-			break
-		}
-	}
-	if !authSupport {
-		return errDigestQopNotSupported
-	}
-
-	return nil
 }
 
 func (c *credentials) h(data string) string {
